@@ -1,6 +1,7 @@
 """Typestate, purity, order-independence and shape-safety rules (C06, C14)."""
 import ast
 
+from . import logic
 from .core import AnalysisError, src, qualname_of, enclosing_function, parents
 from .pysym import SymExec, show, subterms, guards_of
 from .rules_pyx import N, C, A, MUTATORS
@@ -10,18 +11,17 @@ UNI = 'depccg/unification.py'
 
 
 def truthiness(t, trace):
-    """truth value of term t known from the ordered (cond, polarity) trace, or None"""
+    """truth value of term t that follows propositionally from the (cond, polarity) trace, or None"""
     if t is None:
         return None
     if t[0] == 'const':
         return bool(t[1])
-    val = None
-    for c, pol in trace:
-        if c == t:
-            val = pol
-        elif c == ('unop', 'not', t):
-            val = not pol
-    return val
+    f = logic.formula(t)
+    if logic.implied(trace, f):
+        return True
+    if logic.excluded(trace, f):
+        return False
+    return None
 
 
 def r_provider_typestate(repo, rep, R='R6.1'):
